@@ -440,8 +440,7 @@ int liberasurecode_encode(int desc,
 
     if (orig_data == NULL) {
         log_error("Pointer to data buffer is null!");
-        ret = -EINVALIDPARAMS;
-        goto out;
+        return -EINVALIDPARAMS;
     }
 
     if (encoded_data == NULL) {
@@ -456,9 +455,13 @@ int liberasurecode_encode(int desc,
 
     if (fragment_len == NULL) {
         log_error("Pointer to fragment length is null!");
-        ret = -EINVALIDPARAMS;
-        goto out;
+        return -EINVALIDPARAMS;
     }
+
+    /* Nothing is allocated yet: the error path below must not free
+     * whatever the caller's variables happened to contain */
+    *encoded_data = NULL;
+    *encoded_parity = NULL;
 
     ec_backend_t instance = liberasurecode_backend_instance_get_by_desc(desc);
     if (NULL == instance) {
